@@ -51,17 +51,28 @@ impl<T: Write + Read + Seek> PagedWriter<T> {
         // Make sure we wrote any current (partial) page before seeking
         self.flush().write_err("Failed to flush before seeking")?;
 
+        // Remember the start of the current page to restore it if the seek is rejected
+        let current = self
+            .writer
+            .stream_position()
+            .write_err("Failed to get current position")?;
         let end = self
             .writer
             .seek(SeekFrom::End(0))
             .write_err("Failed to seek to file end")?;
         if pos > end {
+            self.writer
+                .seek(SeekFrom::Start(current))
+                .write_err("Failed to seek back to current page")?;
             Error::invalid("Cannot seek after end of file")?
         }
 
         let page = pos / PAGE_SIZE;
         let offset = (pos % PAGE_SIZE) as usize;
         if offset >= PAGE_PAYLOAD_SIZE {
+            self.writer
+                .seek(SeekFrom::Start(current))
+                .write_err("Failed to seek back to current page")?;
             Error::invalid("Cannot seek into checksum")?
         }
 
